@@ -289,7 +289,12 @@ def gen_tree(rng, depth):
         op = rng.choice(["+", "-", "*", "/", "//", "%", "**"])
         if op == "**":
             return E.bin_("**", gen_tree(rng, depth - 1), rng.choice([E.num(2), E.num(3), E.neg(E.num(1)), E.neg(E.num(2)), E.sym("k")]))
-        return E.bin_(op, gen_tree(rng, depth - 1), gen_tree(rng, depth - 1))
+        l, r = gen_tree(rng, depth - 1), gen_tree(rng, depth - 1)
+        if op == "//" and not E.fv(l) and not E.fv(r):
+            # known finding (floordiv-literal-negative-quotient): literal // literal is kept out of the generated family;
+            # the pinned witnesses are replayed by known_witnesses()
+            r = E.bin_("+", r, E.sym("x"))
+        return E.bin_(op, l, r)
     if r < 0.82:
         return E.neg(gen_tree(rng, depth - 1))
     if r < 0.92:
@@ -380,8 +385,19 @@ def model_correspondence(ctx, rng):
             ctx.disagreement("as_expression vs Lean parse (value)", {"expression": s}, E.to_str_full(mt), {"impl": str(got), "at": d})
 
 
+def known_witnesses(ctx):
+    """replay the pinned witnesses of the listed finding; each one that still fails is reported as KNOWN-FINDING"""
+    for s, reading in (("(1/36)//(-2)", -1), ("-7//(1/2)", -14), ("(-7/2)//1", -4)):
+        ctx.stats["evaluations"] += 1
+        got = B.as_expression(s)
+        if E.sympy_ev(got, {}) != reading:
+            ctx.violation("failing-input", f"literal floor division {s} is not the floor of the quotient", {"expression": s}, str(got), reading,
+                          witness_id="floordiv-literal-negative-quotient")
+
+
 def run(ctx, widen=False):
     rng = ctx.rng
+    known_witnesses(ctx)
     ctx.rule = ("exhaustive: every pair and triple of the 8 binary operators with unary minus in every operand position (flat strings read by the harness' own "
                 "precedence reader) + parenthesised pairs; every identifier shape x reserved word x position; every exact built-in in 4 casings; all other built-ins "
                 "for case-insensitivity; unknown functions; random strings to nesting depth 5|7 with random redundant parentheses and both power spellings; values "
